@@ -335,17 +335,27 @@ fn compressed(quick: bool) -> Vec<Case> {
             out.push(Case::Bytes(format!("compressed/bomb-{}MiB-honest", mb), mk(t.len() as u32, &t)));
         }
     }
-    // compressed inside compressed, several levels
+    // compressed inside compressed: every recursion level costs stack, so walk the depth up to and past the
+    // nesting limit (the deepest input is a few KB)
+    let depths: Vec<usize> = if quick { vec![10, 50, 100, 150, 200, 250, 255, 256, 300] } else { vec![10, 50, 100, 120, 150, 200, 250, 254, 255, 256, 257, 300, 1000, 3000] };
     let mut inner = vec![106u8];
-    for _ in 0..(if quick { 50 } else { 3000 }) {
-        let mut b = vec![80];
-        b.extend_from_slice(&be32(inner.len() as u32));
-        b.extend_from_slice(&zlib(&inner));
-        inner = b;
+    let mut level = 0usize;
+    for d in depths {
+        while level < d {
+            let mut b = vec![80];
+            b.extend_from_slice(&be32(inner.len() as u32));
+            b.extend_from_slice(&zlib(&inner));
+            inner = b;
+            level += 1;
+        }
+        let mut b = vec![131];
+        b.extend_from_slice(&inner);
+        out.push(Case::Bytes(format!("compressed/nested-compressed/{}", d), b.clone()));
+        // the same depth reached through a container between the layers
+        let mut t = vec![131, 104, 1];
+        t.extend_from_slice(&inner);
+        out.push(Case::Bytes(format!("compressed/nested-compressed-in-tuple/{}", d), t));
     }
-    let mut b = vec![131];
-    b.extend_from_slice(&inner);
-    out.push(Case::Bytes("compressed/nested-compressed".into(), b));
     // garbage zlib
     out.push(Case::Bytes("compressed/garbage".into(), {
         let mut b = vec![131, 80, 0, 0, 0, 5];
